@@ -246,6 +246,7 @@ namespace jsoncons {
 
         void flatten_and_destroy() noexcept
         {
+            JSONCONS_VERIF_DESTROY_SCOPE;
             while (!data_.empty())
             {
                 value_type current = std::move(data_.back());
